@@ -411,3 +411,12 @@ def r7(ctx):
                 yield VIOL("C03-R7", "handoff/" + key, "argument %d of %s is not the caller's own `%s` handed on unchanged: the credential scope is compared with (or the key is requested for) something other than the configured %s" % (pos, callee.strip("$").split("::")[-1], nm, nm), where=b.span_of_block(c[0]))
             else:
                 yield PASS("C03-R7", "handoff/" + key, "`%s` handed on unchanged" % nm, [site(b, c[0], callee.strip("$").split("::")[-1])])
+
+
+@M.rule("C03-R8", "the credential is cut from a header value trimmed of ASCII whitespace only (shared with C02-R8)")
+def r8(ctx):
+    import c02
+
+    for r in c02.r8(ctx):
+        r.rule = "C03-R8"
+        yield r
